@@ -53,3 +53,36 @@ func TestSmoke(t *testing.T) {
 	}
 	fmt.Println("200 runs", time.Since(t0), "steps", r.Steps, "stuck", r.Stuck, "div", r.Diverged, "hash", r.Hash)
 }
+
+func TestReplay(t *testing.T) {
+	if *fReplay == "" {
+		t.Skip("no replay file")
+	}
+	rf, err := LoadReplay(*fReplay)
+	if err != nil {
+		t.Fatal(err)
+	}
+	if rf.Scenario == nil {
+		fmt.Printf("replay %s: direct (non-scheduler) witness for %s\n  signature: %s\n  %s\n  extra: %v\n", *fReplay, rf.Property, rf.Signature, rf.Message, rf.Extra)
+		return
+	}
+	r := RunOnce(t, rf.Scenario, rf.Choices, true)
+	PrintTrace(os.Stdout, r)
+	if r.Diverged != "" {
+		fmt.Println("DIVERGED:", r.Diverged)
+	}
+	vs, _ := Evaluate(rf.Property, r)
+	hit := false
+	for _, v := range vs {
+		fmt.Printf("oracle %s: [%s] %s\n", rf.Property, v.Sig, v.Msg)
+		if v.Sig == rf.Signature {
+			hit = true
+		}
+	}
+	if hit {
+		fmt.Printf("REPRODUCED property=%s signature=%s\n", rf.Property, rf.Signature)
+		t.Fail()
+	} else {
+		fmt.Printf("not reproduced on this tree: property=%s signature=%s\n", rf.Property, rf.Signature)
+	}
+}
